@@ -50,6 +50,7 @@ import (
 	"math/big"
 	"os"
 	"path/filepath"
+	"reflect"
 	"sort"
 	"strings"
 	"testing"
@@ -340,17 +341,18 @@ func lenientAccepts(t *refssz.Type, x []byte) string {
 // ---------------------------------------------------------------- run
 
 type runInfo struct {
-	nMut      map[string]int
-	refused   map[string]int
-	atLimit   int
-	nonEmpty  int
-	nonDef    bool
-	fixed     bool
-	jsonNamed bool
-	yamlOK    bool
-	verdict   string
-	lenient   map[string]int
-	recycled  bool
+	nMut                            map[string]int
+	refused                         map[string]int
+	atLimit                         int
+	nonEmpty                        int
+	nonDef                          bool
+	fixed                           bool
+	jsonNamed                       bool
+	yamlOK                          bool
+	jsonByValue, jsonByValueDiffers bool
+	verdict                         string
+	lenient                         map[string]int
+	recycled                        bool
 }
 
 func run(c *Case) (*report.Failure, *runInfo) {
@@ -447,6 +449,27 @@ func run(c *Case) (*report.Failure, *runInfo) {
 			return report.Failf(c.Type+"/JSON/by-name-differs", "%s json.Marshal(struct) vs spec field names: %s; json %s", tag, d, trunc(string(js), 400)), info
 		}
 		info.jsonNamed = true
+	}
+	// 4b. the same value marshalled BY VALUE (not addressable: encoding/json cannot reach pointer-receiver
+	// marshallers of its fields then) must round-trip as well — a caller holding the struct by value, in a map or
+	// in an interface gets this text form
+	if rv := reflect.ValueOf(o.V); rv.Kind() == reflect.Ptr && !rv.IsNil() {
+		var jv []byte
+		if err, pan := guard("json.Marshal(by value)", func() error { var e error; jv, e = json.Marshal(rv.Elem().Interface()); return e }); err != nil {
+			return report.Failf(c.Type+"/JSON/marshal-error", "%s by value: %v (panic=%v)", tag, err, pan), info
+		}
+		if !bytes.Equal(jv, js) {
+			o4, _ := newObj(c, p)
+			if err, pan := guard("json.Unmarshal", func() error { return json.Unmarshal(jv, o4.V) }); err != nil {
+				return report.Failf(c.Type+"/JSON/by-value-unmarshal-error", "%s the text json.Marshal gives for the value held by value cannot be read back: %v (panic=%v); json %s", tag, err, pan, trunc(string(jv), 400)), info
+			}
+			out4, err, pan := encodeLib(o4)
+			if pan || err != nil || !bytes.Equal(out4, B) {
+				return report.Failf(c.Type+"/JSON/by-value-roundtrip-differs", "%s value after a by-value json round trip encodes differently (%v): %s; json %s", tag, err, refssz.DiffBytes(t, B, out4), trunc(string(jv), 400)), info
+			}
+			info.jsonByValueDiffers = true
+		}
+		info.jsonByValue = true
 	}
 	// 5. YAML round trip
 	var ys []byte
@@ -784,6 +807,12 @@ func TestCheck(t *testing.T) {
 		r.Class("value:" + p.Family + ":" + c.Shape)
 		if info.jsonNamed {
 			r.Class("json-by-name-compared")
+		}
+		if info.jsonByValue {
+			r.Class("json-by-value-round-trip")
+		}
+		if info.jsonByValueDiffers {
+			r.Class("json-by-value-text-differs-from-by-pointer(still round-trips)")
 		}
 		if info.recycled {
 			r.Class("recycled-destination-decoded")
